@@ -358,6 +358,26 @@ for lg in (0, 1, 3, 5):
     u.extra_contracts = {"serial_fft": lambda it, recv, a: (it.ctx.event("serial_fft", canon(a[0]), canon(a[1]), canon(a[2])), UNIT)[1]}
 
 
+# ---- best_fft, the path ABOVE the parallel threshold, executed at small sizes with the threshold constant lowered (instance parameter
+# `__threshold_override__`; the engine refuses any use of the lowered constant other than a comparison with a length).  BOUNDED stand-in
+# for the large sizes: same code path (bit reversal, per-stage twiddle, chunked butterflies through rayon, the final-stage split), small n.
+def _par_chunks_any(it, recv, a):
+    return par_chunks(it, recv, a) if isinstance(recv, VArr) else NotImplemented
+
+
+for (lg, T_, final_min) in ((2, 1, None), (3, 1, None), (3, 4, 4), (4, 4, 4), (5, 2, None), (5, 8, 8)) + (((6, 4, 4), (7, 16, 16)) if THOROUGH else ()):
+    n_ = 1 << lg
+    u = unit(f"kernels.best_fft.above_threshold[n={n_},threads={T_},final_min={final_min}]", DM, "alloc::best_fft",
+             [("a", mk_arr("a", n_)), ("omega", sym("w")), ("log_n", (lambda lg=lg: lg))], c_serial_fft(n_), out_fft(n_))
+    u.consts = dict(u.consts, __threshold_override__={"PARALLEL_FFT_MIN_LEN": 4})
+    u.extra_contracts = dict(FFTC, **{"rayon::current_num_threads": (lambda it, recv, a, T_=T_: T_), ".par_chunks_mut": _par_chunks_any,
+                                      ".par_iter": lambda it, recv, a: VIter(list(recv.items)) if isinstance(recv, VArr) else NotImplemented,
+                                      ".into_par_iter": lambda it, recv, a: VIter(list(recv.items)) if isinstance(recv, (VArr, VIter)) else NotImplemented})
+    if final_min is not None:
+        # should_parallelize_final_fft_stages(len, threads) = len >= PARALLEL_FINAL_FFT_MIN_LEN && threads >= 4: module constant lowered the same way
+        u.consts = dict(u.consts, PARALLEL_FINAL_FFT_MIN_LEN=final_min)
+
+
 def lemma_fft_round_trip():
     """Contract-level lemma: with wi = w^-1 (= w^(n-1)), n_inv = 1/n and gi = 1/g, the four transforms are mutually inverse:
     ifft(fft(a)) == a and coset_ifft(coset_fft(a)) == a  (exact, modulo w^(n/2) == -1), for n = 1, 2, 4, 8, 16."""
